@@ -10,6 +10,7 @@ package main
 import (
 	"bytes"
 	"fmt"
+	"strings"
 
 	"github.com/google/gce-tcb-verifier/sev"
 	sgpb "github.com/google/go-sev-guest/proto/sevsnp"
@@ -163,6 +164,58 @@ func main() {
 			return fmt.Sprintf("%x %v", got, err)
 		})
 	})
+	// History: consecutive measurements in one goroutine through ONE reused byte buffer. The first
+	// image of a pair is measured, the buffer is overwritten in place with the second image (same
+	// backing array, possibly the same length), and the second measurement must still be the
+	// definition's for the bytes and options of the second call. Whatever the first call remembered
+	// (a memo keyed on the slice, on the length, on the contents without the options) shows up here.
+	var seq []task
+	for i, mk := range tasks {
+		t := mk()
+		if strings.HasPrefix(t.id, "sweep") || i%97 == 0 {
+			seq = append(seq, t)
+		}
+	}
+	shared := make([]byte, 0x3000)
+	pairs := 0
+	for i := 0; i+1 < len(seq); i++ {
+		a, b := seq[i], seq[i+1]
+		id := fmt.Sprintf("reused-buffer first=[%s] second=[%s]", a.id, b.id)
+		r.Case(id, func() string {
+			pairs++
+			imgA, _ := fx.Build(a.spec)
+			imgB, _ := fx.Build(b.spec)
+			bufA := shared[:len(imgA)]
+			copy(bufA, imgA)
+			var got []byte
+			var err error
+			pan, _ := mc.Guard(func() {
+				sev.LaunchDigest(&sev.LaunchOptions{Vcpus: a.vcpus, Product: a.prod}, bufA)
+				bufB := shared[:len(imgB)]
+				copy(bufB, imgB)
+				got, err = sev.LaunchDigest(&sev.LaunchOptions{Vcpus: b.vcpus, Product: b.prod}, bufB)
+			})
+			r.Eval()
+			if pan {
+				r.Outcome("panic")
+				return "panic"
+			}
+			want, refErr := ref.LaunchDigest(imgB, b.vcpus, b.width)
+			r.Validated()
+			switch {
+			case err == nil && refErr != nil:
+				r.Violation("after-another-image/malformed-accepted/"+refErr.Error(), id, fmt.Sprintf("measured right after another image in the same buffer, LaunchDigest returned a digest for an image the definition rejects (%v)", refErr), nil)
+			case err == nil && !bytes.Equal(got, want[:]):
+				r.Violation("after-another-image/digest-differs-from-definition", id, fmt.Sprintf("measured right after another image in the same buffer, LaunchDigest = %x, definition gives %x", got, want), nil)
+			}
+			if err == nil {
+				r.Nontrivial(id)
+			}
+			r.Outcome("reused-buffer:" + map[bool]string{true: "accept", false: "reject"}[err == nil])
+			return fmt.Sprintf("%x %v", got, err)
+		})
+	}
+	r.Set("reused_buffer_pairs", pairs)
 	r.Set("section_menu", len(menu))
 	r.Finish()
 }
